@@ -1,5 +1,6 @@
 """C11 - orbital elements <-> Cartesian coordinates, both directions, both front ends."""
 import ctypes
+import os
 import math
 
 from hypothesis import strategies as st
@@ -19,6 +20,7 @@ KEY_HYPM = "C11-hyperbolic-M-wrapped"       # hyperbolic o.M / o.l (and Orbit.E)
 KEY_PRIMPAL = "C11-c-primary-pal"           # C front end rejects primary + Pal elements
 KEY_PALNEWTON = "C11-pal-kepler-newton"      # reb_tools_solve_kepler_pal, 0.1<=e<0.3: transposed Jacobian (see C16-pal-kepler-newton.patch)
 KEY_PARAB = "C11-near-parabolic-cancellation"   # |1-e|<~1e-8 far from pericentre: 1+e cos f cancels, inf/NaN or O(1) wrong particle
+KEY_ACOSH = "C11-hyperbolic-pericentre-nan"   # orbit() of a hyperbolic orbit at pericentre: acosh(1-ulp) = NaN -> M, l, T NaN
 KEY_NONFINITE = "C11-nonfinite-accepted"    # Pal elements with h^2+k^2>=1 or a<=0, classical a==0: accepted, NaN/inf particle
 
 RULE = ("Four sub-checks. kepler: (e, M|E) over e in [0,1) u (1,1e3] with mass on 1-+1e-12..1e-1 and M,E at 0, "
@@ -48,7 +50,7 @@ ASSUMPTIONS = [
 ]
 CLASSES = ["kepler/elliptic", "kepler/hyperbolic", "kepler/near_parabolic", "kepler/M0", "kepler/big",
            "forward/hyperbolic", "forward/retrograde", "forward/near_planar", "forward/near_circular",
-           "forward/pal", "forward/P", "forward/T", "forward/pomega", "forward/reject", "forward/anom:f",
+           "forward/pal", "forward/P", "forward/pomega", "forward/parabolic_cancellation", "forward/reject", "forward/anom:f",
            "forward/anom:M", "forward/anom:E", "forward/anom:l", "forward/anom:theta", "forward/anom:T",
            "readback/hyperbolic", "readback/retrograde", "readback/planar_branch", "readback/min_ecc_branch",
            "readback/near_parabolic", "readback/pericentre", "grammar/accept", "grammar/reject",
@@ -498,12 +500,15 @@ def run_forward(c, ctx):
         skip_accept_checks = True
     mkw = dict(kw)
     mkw.pop("m")
-    sp, rp = py_build(simp, kw)
-    sc, rc = c_build(simc, kw)
-    primpal = pal     # primary is always passed here: the C front end is known to reject primary + Pal elements
-    if primpal and ctx.finding_open(KEY_PRIMPAL):
-        ctx.excluded(KEY_PRIMPAL)
-        sc, rc = c_build(simc, kw, primary=False)      # primary = centre of mass = the only particle: same orbit
+    # Pal elements: default primary (the centre of mass, i.e. the only particle up to the rounding of (x m)/m, which is
+    # read back from the library); the combination primary + Pal elements is the business of the grammar sub-check
+    sp, rp = py_build(simp, kw, primary=not pal)
+    sc, rc = c_build(simc, kw, primary=not pal)
+    if pal:
+        from rebound import Particle
+        cl.reb_simulation_com.restype = Particle
+        com = cl.reb_simulation_com(ctypes.byref(simp))
+        cc["prim"] = {"m": com.m, "pos": [com.x, com.y, com.z], "vel": [com.vx, com.vy, com.vz]}
     if skip_accept_checks:
         return
     if reason is not None:
@@ -538,7 +543,7 @@ def run_forward(c, ctx):
     if not (mp.isfinite(cpos) and mp.isfinite(cvel)):
         ctx.skip("cond_inf")
         return
-    pr = c["prim"]
+    pr = cc["prim"]
     rpos = float(mp.sqrt(sum(x * x for x in ref[:3])))
     rvel = float(mp.sqrt(sum(x * x for x in ref[3:])))
     # the documented formulas r = a(1-e^2)/(1+e cos f), v0 = sqrt(mu/(a(1-e^2))) evaluated in double: 1-e*e carries
@@ -581,6 +586,10 @@ def run_forward(c, ctx):
 def amp(theta, delta):
     """Allowed error of an angle obtained from its cosine when the cosine is known to +-delta."""
     return delta / max(abs(math.sin(theta)), math.sqrt(delta))
+
+
+def r0_d(ref):
+    return float(ref["d"] / ref["a"])
 
 
 def run_readback(c, ctx):
@@ -638,10 +647,14 @@ def run_readback(c, ctx):
         ctx.excluded(KEY_HYPM)
     else:
         got["E"] = o.E
+    if hyp and any(math.isnan(got[k_]) for k_ in ("M", "l", "T")) and (1 - r0_d(ref)) / er < 1 + 1e-12 \
+            and ctx.finding_open(KEY_ACOSH):
+        ctx.excluded(KEY_ACOSH)
+        return
     for k_, v in got.items():
         if not math.isfinite(v):
-            if k_ in ("pal_h", "pal_k", "pal_ix", "pal_iy") and not mp.isfinite(ref[k_]):
-                continue
+            if k_ in ("pal_h", "pal_k", "pal_ix", "pal_iy") and (not mp.isfinite(ref[k_]) or 1 + ref["hz"] / ref["h"] < 1e-12):
+                continue            # Pal's variables do not exist at inc = pi
             raise Violation("orbit().%s = %r for a regular state" % (k_, v), state=[float(x) for x in s])
     # ---- ranges
     rng = [("f", 0, 2 * PI), ("theta", 0, 2 * PI), ("omega", 0, 2 * PI)]
@@ -701,8 +714,21 @@ def run_readback(c, ctx):
         dMdE = abs(er * math.cosh(Ea) - 1)
         t_M = dMdE * t_E + er * (abs(math.sinh(Ea)) + t_E) * math.cosh(min(t_E, 5.0)) * t_E ** 2 + K * EPS * (cd["M"] + abs(r["M"]))
     tol["M"] = t_M
-    tol["E"] = 2 * t_E + K * EPS * (cd["E"] + 2 * PI + abs(Ea)) + t_M / max(dMdE, 1e-300) if dMdE > 0 else float("inf")
-    tol["E"] = min(tol["E"], 4 * t_E + 1e3 * K * EPS * (cd["E"] + 2 * PI + abs(Ea)) + 2 * math.sqrt(t_M))
+    # Orbit.E is M_to_E(o.e, o.M): the reported M and e (each within its tolerance) pushed through the exact inverse
+    dM_ = t_M + 4e-16 + (K * EPS * 2 * PI if not hyp else 0.0)
+    eF, MF = ref["e"], ref["M"]
+    tE = 0.0
+    if math.isfinite(dM_) and math.isfinite(tol["e"]):
+        for de_, dm_ in ((0, dM_), (0, -dM_), (tol["e"], 0), (-tol["e"], 0)):
+            e2 = eF + de_
+            if (e2 < 1) != (eF < 1) or e2 < 0:
+                tE = float("inf")
+                break
+            dE_ = O.kepler_E(e2, MF + dm_) - ref["E"]
+            tE = max(tE, abs(float(dE_ if hyp else O.wrap_pm(dE_))))
+        tol["E"] = 2 * tE + K * EPS * (cd["E"] + 2 * PI + abs(Ea))
+    else:
+        tol["E"] = float("inf")
     if o.e > 2e-8:
         tol["l"] = tol["pomega"] + t_M
     elif o.e < 0.5e-8:
@@ -712,12 +738,17 @@ def run_readback(c, ctx):
     tol["l"] += K * EPS * cd["l"]
     nabs = abs(r["n"])
     tol["T"] = t_M / nabs + K * EPS * (cd["T"] + abs(c["t"]) + abs(r["T"]))
+    # Pal's variables are singular at inc = pi: 1/(h + hz) in their definition cancels like 1/(1 + cos inc)
+    opc = 1.0 + r["hz"] / r["h"]
     for k_ in ("pal_h", "pal_k", "pal_ix", "pal_iy"):
-        tol[k_] = K * EPS * (cd[k_] + 2.0 + se) if math.isfinite(r[k_]) else float("inf")
+        tol[k_] = K * EPS * (cd[k_] + (2.0 + se) * (1 + 1 / opc)) if (math.isfinite(r[k_]) and opc > 1e-12) else float("inf")
     # ---- element by element
+    switch = abs(r["inc"] - PI / 2) < 1e-12
     for k_ in got:
         if k_ in ("M", "l") and known_hyp:
             continue
+        if switch and k_ in ("pomega", "l", "theta"):
+            continue        # at inc = pi/2 (to rounding) the prograde/retrograde convention of these is not determined
         tl = tol[k_]
         if not math.isfinite(tl):
             continue
@@ -729,6 +760,9 @@ def run_readback(c, ctx):
             sg = 1.0 if got["inc"] < PI / 2 else -1.0
             err = abs(got["l"] - (got["Omega"] + sg * (got["omega"] + got["M"])))
             tl = K * EPS * (abs(got["Omega"]) + abs(got["omega"]) + abs(got["M"]) + abs(got["l"]))
+        elif k_ == "T" and not hyp:
+            Pr = abs(r["P"])            # any pericentre passage is a time of pericentre passage
+            err = abs(math.remainder(float(O.F(got[k_]) - ref[k_]), Pr))
         else:
             err = abs(float(O.F(got[k_]) - ref[k_]))
         ctx.stat_max("readback_err_over_tol", err / tl if tl > 0 else (0.0 if err == 0 else float("inf")))
@@ -738,49 +772,129 @@ def run_readback(c, ctx):
                             element=k_, state=[float(x) for x in s], G=c["G"], m=m, M=pr["m"])
     # ---- round trip: rebuild the particle from the reported elements through each parameterisation
     pro = got["inc"] < PI / 2
-    near_switch = abs(math.cos(got["inc"])) < 1e-6
+    near_switch = abs(math.cos(got["inc"])) < 1e-6 or switch
     common = {"m": m, "a": got["a"], "e": got["e"], "inc": got["inc"], "Omega": got["Omega"]}
     sets = [("omega,f", dict(common, omega=got["omega"], f=got["f"]), ("omega", "f"))]
     if not known_hyp:
         sets.append(("omega,M", dict(common, omega=got["omega"], M=got["M"]), ("omega", "M")))
         if "E" in got:
             sets.append(("omega,E", dict(common, omega=got["omega"], E=got["E"]), ("omega", "E")))
-        sets.append(("omega,T", dict(common, omega=got["omega"], T=got["T"]), ("omega", "M")))
+        sets.append(("omega,T", dict(common, omega=got["omega"], T=got["T"]), ("omega", "T")))
     if not near_switch:
-        sets.append(("pomega,f", dict(common, pomega=got["pomega"], f=got["f"]), ("pomega", "omega", "f")))
-        sets.append(("omega,theta", dict(common, omega=got["omega"], theta=got["theta"]), ("theta", "omega")))
+        sets.append(("pomega,f", dict(common, pomega=got["pomega"], f=got["f"]), ("pomega", "Omega", "f")))
+        sets.append(("omega,theta", dict(common, omega=got["omega"], theta=got["theta"]), ("theta", "omega", "Omega")))
         if not known_hyp:
-            sets.append(("omega,l", dict(common, omega=got["omega"], l=got["l"]), ("l", "omega")))
+            sets.append(("omega,l", dict(common, omega=got["omega"], l=got["l"]), ("l", "omega", "Omega")))
     if not hyp:
         c2 = dict(common)
         c2.pop("a")
         sets.append(("P,omega,f", dict(c2, P=got["P"], omega=got["omega"], f=got["f"]), ("omega", "f")))
-    # sensitivity of the state to each angle is at most |r| resp. |v| (rotations) times the phase-speed factor
-    # dtheta/dM = (a/r)^2 sqrt(|1-e^2|) for the anomalies; elements other than angles: relative error * size
-    ar = abs(r["a"]) / d_
-    dfdM = ar * ar * math.sqrt(abs(1 - er * er))
-    vmax = v_ + math.sqrt(ax["mu"] / abs(r["a"]) / max(abs(1 - er * er), 1e-300)) * (1 + er)
+    # Allowed deviation: the reference elements moved by the tolerance of each reported element that the
+    # parameterisation uses (one at a time, both signs, exact map in mpmath), plus the allowances of the forward map.
+    mu_ = ax["mu"]
+    elr = [ref["a"], ref["e"], ref["inc"], ref["Omega"], ref["omega"], ref["f"]]
+    s0 = O.el2cart(mu_, *elr)
+
+    memo = {}
+
+    def delta(amount, **co):
+        """(dpos, dvel) when the elements move by +-amount times the coefficients co (keys a,e,inc,Omega,omega,f and
+        M / E: through the exact anomaly conversion)"""
+        key = (amount, tuple(sorted(co.items())))
+        if key in memo:
+            return memo[key]
+        if not math.isfinite(amount):
+            return float("inf"), float("inf")
+        if amount == 0:
+            return 0.0, 0.0
+        bp = bv = 0.0
+        for sg in (1, -1):
+            el2 = list(elr)
+            for i_, nm in enumerate(("a", "e", "inc", "Omega", "omega", "f")):
+                if nm in co:
+                    el2[i_] = el2[i_] + sg * co[nm] * amount
+            if (el2[1] < 1) != (elr[1] < 1) or el2[1] < 0:
+                return float("inf"), float("inf")
+            if "M" in co:
+                el2[5] = O.M_to_f(el2[1], ref["M"] + sg * co["M"] * amount)
+            elif "E" in co:
+                el2[5] = O.E_to_f(el2[1], ref["E"] + sg * co["E"] * amount)
+            try:
+                s2 = O.el2cart(mu_, *el2)
+            except ZeroDivisionError:
+                return float("inf"), float("inf")
+            bp = max(bp, float(mp.sqrt(sum((s2[i] - s0[i]) ** 2 for i in range(3)))))
+            bv = max(bv, float(mp.sqrt(sum((s2[i] - s0[i]) ** 2 for i in range(3, 6)))))
+        memo[key] = (bp, bv)
+        return bp, bv
+    sgn = 1.0 if pro else -1.0        # prograde: pomega = Omega + omega, theta = pomega + f, l = pomega + M
+    absM = 4e-16
+
+    def budget(name, kw):
+        """Perturbations implied by the tolerance of every reported element the parameterisation reads, expressed in
+        the constructor's own variables (a, e, inc, Omega, omega, and f or M or E)."""
+        anom = [k_ for k_ in ("f", "M", "E", "T", "theta", "l") if k_ in kw][0]
+        var = {"f": "f", "theta": "f", "M": "M", "T": "M", "l": "M", "E": "E"}[anom]
+        out = [delta(tol["e"], e=1.0), delta(tol["inc"], inc=1.0)]
+        out.append(delta(tol["P"] / abs(r["P"]) * abs(r["a"]) * 2 / 3, a=1.0) if "P" in kw else delta(tol["a"], a=1.0))
+        # Omega: moves the node; omega / f / M follow where they are derived from a longitude
+        co = {"Omega": 1.0}
+        if "pomega" in kw:
+            co["omega"] = -1.0 if pro else 1.0      # omega = pomega - Omega (prograde), Omega - pomega (retrograde)
+        if anom in ("theta", "l"):
+            # f (or M) = sgn (long - Omega) - omega
+            co[var] = (-1.0 if pro else 1.0) - (co.get("omega", 0.0))
+        out.append(delta(tol["Omega"], **co))
+        # pericentre
+        if "pomega" in kw:
+            co = {"omega": sgn}
+            if anom in ("theta", "l"):
+                co[var] = -sgn
+            out.append(delta(tol["pomega"], **co))
+        else:
+            co = {"omega": 1.0}
+            if anom in ("theta", "l"):
+                co[var] = -1.0
+            out.append(delta(tol["omega"], **co))
+        # anomaly / longitude itself
+        if anom == "f":
+            out.append(delta(tol["f"], f=1.0))
+        elif anom == "theta":
+            out.append(delta(tol["theta"], f=1.0))
+        elif anom == "M":
+            out.append(delta(tol["M"] + absM, M=1.0))
+        elif anom == "l":
+            out.append(delta(tol["l"] + absM, M=1.0))
+        elif anom == "T":
+            out.append(delta(tol["T"] * nabs + absM, M=1.0))
+        elif anom == "E":
+            out.append(delta(tol["E"], E=1.0))
+        return sum(x[0] for x in out), sum(x[1] for x in out)
+    par = (1 + er * er) / abs(1 - er * er)
+    par2 = (1 + er) / max(abs(1 + er * math.cos(r["f"])), 1e-300)
+    v0 = math.sqrt(mu_ / abs(r["a"] * (1 - er * er)))
     cart = pvec(p)
+    fwd_p = K * EPS * (d_ * (1 + par + par2) + norm(cart[:3]) + norm(pr["pos"]))
+    fwd_v = K * EPS * (v_ * (1 + par) + v0 * (1 + er) + norm(cart[3:]) + norm(pr["vel"]))
     for name, kw, used in sets:
         s_, q = py_build(sim, kw)
         if s_ != "ok":
             raise Violation("round trip %s: constructor rejects the elements reported by orbit(): %s" % (name, q), kw=kw)
-        ang = 0.0
-        for k_ in used:
-            tk = tol.get(k_, 0.0)
-            if k_ in ("M", "l", "E"):
-                tk = tk * (dfdM if k_ != "E" else dfdM * max(dMdE, 0.0)) + (tol["pomega"] if k_ == "l" else 0.0)
-            ang += tk
-        ang += tol["inc"] + tol["Omega"] * abs(math.sin(r["inc"])) + tol["Omega"] * 0  # Omega enters through sin(inc) only
-        if not math.isfinite(ang):
+        bp_, bv_ = budget(name, kw)
+        tp = fwd_p + 2 * bp_          # factor 2: one-at-a-time perturbations are not a bound for joint ones
+        tv = fwd_v + 2 * bv_
+        if not (math.isfinite(tp) and math.isfinite(tv)):
+            ctx.skip("roundtrip_tol_inf")
             continue
-        rel_el = tol["a"] / abs(r["a"]) + tol["e"] * (1 + ar * ar * (1 + 1 / max(abs(1 - er * er), 1e-300))) + K * EPS
-        tp = (ang + rel_el) * d_ * (1 + vmax / v_ * 0) + K * EPS * norm(cart[:3])
-        tv = (ang + rel_el) * vmax * (1 + ar) + K * EPS * norm(cart[3:])
-        # a phase error moves the particle along the orbit: dr = v dt, dv = a dt
-        tp += ang * 0
         dpos = norm([getattr(q, k_) - getattr(p, k_) for k_ in ("x", "y", "z")])
         dvel = norm([getattr(q, k_) - getattr(p, k_) for k_ in ("vx", "vy", "vz")])
+        if not (math.isfinite(dpos) and math.isfinite(dvel)):
+            if K * EPS * (par + par2) > 1e-3:
+                ctx.cls("parabolic_cancellation")
+                if ctx.finding_open(KEY_PARAB):
+                    ctx.excluded(KEY_PARAB)
+                    continue
+            raise Violation("round trip state -> orbit() -> Particle(%s) gives a non-finite particle" % name, kw=kw, state=cart)
         ctx.stat_max("roundtrip_err_over_tol", max(dpos / tp, dvel / tv))
         if dpos > tp or dvel > tv:
             raise Violation("round trip state -> orbit() -> Particle(%s) does not return the state: |dr|=%.3e "
@@ -926,7 +1040,7 @@ def subs(tier):
     return [
         Sub("kepler", run_kepler, strategy=kepler_case, quick=12000, thorough=400000, shards_quick=4, shards_thorough=16),
         Sub("forward", run_forward, strategy=forward_case, quick=6000, thorough=200000, shards_quick=8, shards_thorough=16),
-        Sub("readback", run_readback, strategy=classical_case(readback=True), quick=4000, thorough=120000,
+        Sub("readback", run_readback, strategy=classical_case(readback=True), quick=4000, thorough=100000,
             shards_quick=8, shards_thorough=16),
         Sub("grammar", run_grammar, strategy=grammar_case, quick=6000, thorough=200000, shards_quick=4, shards_thorough=16),
     ]
